@@ -111,8 +111,8 @@ def pipeline(ctx, cases_by=None):
         depths = {"all": 2}
         allc += ctx.tlc_gen("Defs_MC.tla", gencfg(ctx, "gen_bfs_all.cfg", ALLOPS, SMALL, 2), "bfsall")
         if not q:
-            ops3 = [o for o in ALLOPS if o not in ("AddParagraph", "AddHeader", "AddFooter", "AddTable", "SaveFile", "RemoveNote")]
-            allc += ctx.tlc_gen("Defs_MC.tla", gencfg(ctx, "gen_bfs_all3.cfg", ops3, SMALL, 3), "bfsall3")
+            ops3 = [o for o in ALLOPS if o not in ("AddParagraph", "AddHeader", "AddFooter", "AddTable", "SaveFile", "RemoveNote", "Look")]
+            allc += ctx.tlc_gen("Defs_MC.tla", gencfg(ctx, "gen_bfs_all3.cfg", ops3, dict(SMALL, OnIds={"Heading2"}), 3), "bfsall3")
             depths["all-without-idless-ops"] = 3
         # (2) every behaviour of each focused alphabet, deeper
         for name, ops, args, dq, dt in GROUPS:
@@ -126,7 +126,7 @@ def pipeline(ctx, cases_by=None):
         ctx.exhaustive = True
         # (3) seeded random long behaviours over the wide argument classes
         d3 = 10 if q else 16
-        allc += ctx.tlc_gen("Defs_MC.tla", gencfg(ctx, "gen_sim.cfg", ALLOPS, WIDE, d3), "sim", mode="sim", num=6 if q else 30, depth=d3 + 1)
+        allc += ctx.tlc_gen("Defs_MC.tla", gencfg(ctx, "gen_sim.cfg", ALLOPS, WIDE, d3), "sim", mode="sim", num=6 if q else 20, depth=d3 + 1)
         count_ops(cnt, allc)
         # one execution + one judge run over everything (case ids are unique across generators)
         ctx.cases_by_tag["gen"] = {c["id"]: c for c in allc}
